@@ -28,6 +28,7 @@ func vfArbiter(symbolicLogs bool) (*vfEnv, *ArbiterManager) {
 		mem := NewArbiterMember(m, h, 1, 0)
 		mem.role = ARBITER_ROLE_FOLLOWER
 		mem.status = ARBITER_MEMBER_STATUS_ONLINE
+		mem.client = NewArbiterClient(mem) // unconnected: an announcement attempt just fails
 		if symbolicLogs {
 			mem.aofId = vfAofId(vfName("log", i))
 		}
